@@ -95,6 +95,7 @@ func runAllocPipeline(fn *ir.Function) (c allocCase, ok bool) {
 		return c, false
 	}
 	if c01UseDefDB != nil {
+		c.useDefs = append(c.useDefs, "accept-cfg "+encNodes(fn)+" => "+encGraph(fn))
 		for _, i := range fn.Instructions() {
 			m := matchedForm(c01UseDefDB, i.Opcode, i.Suffixes, i.Operands)
 			if m == nil {
